@@ -30,7 +30,7 @@ def main(argv=None):
         if a.replay:
             return mod.replay(a.replay)
         import shutil
-        shutil.rmtree(os.path.join(core.ROOT, "replays", pid), ignore_errors=True)
+        shutil.rmtree(os.path.join(core.OUT, "replays", pid), ignore_errors=True)
         chk = core.Check(pid, a.tier, seed, a.jobs)
         chk.level = getattr(mod, "META", {}).get("level", chk.level)      # the level the manifest claims (tools/gen_manifest.py reads the same META)
         mod.run(chk)
